@@ -3,7 +3,7 @@ SPECIFICATION Spec
 CHECK_DEADLOCK FALSE
 INVARIANTS PlanOut
 CONSTANTS
-  Kinds = {"token", "userpass", "kafka"}
+  Kinds = {"token", "userpass", "kafka", "kafka_off"}
   CreateFaults = {0, 1, 2, 3, 4, 5, 6, 95, 97, 98, 99}
   ReadFaults = {0}
   PauseFaults = {0}
